@@ -751,7 +751,7 @@ func (env *SpecEnv) call(e *SExpr) SVal {
 		case "remove":
 			m := env.eval(args[0])
 			k := env.coerce(env.eval(args[1]), mathKey(m.Typ))
-			return SVal{T: MkDT(m.T.Sort, Store(Field(m.T, 0), k.T, False), Field(m.T, 1)), Typ: m.Typ, Math: true}
+			return SVal{T: MkDT(m.T.Sort, Store(Field(m.T, 0), k.T, False), Store(Field(m.T, 1), k.T, fv.ctx.Zero(mathElem(m.Typ)))), Typ: m.Typ, Math: true}
 		}
 		if p, ok := fv.eng.preds[fe.Name]; ok {
 			return env.expandPred(p, args)
@@ -973,9 +973,15 @@ func (fv *FuncVer) ghostValue(st *State, g *Block) *Term {
 	if v, ok := st.globals[key]; ok {
 		return v
 	}
-	s, _, _ := fv.ghostSort(g)
+	s, gt, math := fv.ghostSort(g)
 	v := fv.ctx.Const("ghost0_"+g.Name, s)
 	st.globals[key] = v
+	if math {
+		// canonical form: absent keys carry the zero value (so that add-then-remove restores equality)
+		mt := types.Unalias(gt).Underlying().(*types.Map)
+		k := BoundVar("k_q", fv.ctx.SortOf(mt.Key()))
+		fv.ghostAxioms = append(fv.ghostAxioms, Forall([]*Term{k}, Implies(Not(Select(Field(v, 0), k)), Eq(Select(Field(v, 1), k), fv.ctx.Zero(mt.Elem()))), Select(Field(v, 1), k)))
+	}
 	if st.old != nil && st.old != st {
 		if _, ok := st.old.globals[key]; !ok {
 			st.old.globals[key] = v
